@@ -1,4 +1,9 @@
 import CSSVerif.SpecEval
+import CSSVerif.CheckSpec
+import CSSVerif.Shifts
+/-! Driver for specification skeletons (C01, C02, C19, C13, C17...).
+Line: `nClasses N cap root empties(-|a,b) skeleton`; prints `check=<0/1> <ok|incomplete> c:terms|terms|... ...`:
+`check` = verdict of the proven `checkSpec` on (parent, children, shifts); then the evaluation of the skeleton. -/
 def strs' (s : String) : List String := if s = "" then [] else s.splitOn ","
 def parseTerms' (s : String) : Terms :=
   if s = "" then [] else (s.splitOn "/").map (fun e =>
@@ -26,12 +31,17 @@ partial def loop (h : IO.FS.Stream) : IO Unit := do
   let line ← h.getLine
   if line.isEmpty then pure () else
     match line.trimAscii.toString.splitOn " " with
-    | [nc, nmax, cap, rs] =>
+    | [nc, nmax, cap, root, empt, rs] =>
       let rules := (rs.splitOn "#").map parseRule''
       let nc := nc.toNat!; let nmax := nmax.toNat!
-      let (tab, ok) := evalSpec rules nc cap.toNat! 10000 (Array.replicate nc #[])
+      let R : List Rule := rules.map (fun r => ⟨r.cls, r.sub, r.shifts⟩)
+      let chk := checkSpec R root.toNat! (if empt = "-" then [] else (empt.splitOn ",").map String.toNat!)
+      let (tab, _) := evalSpec rules nc cap.toNat! 10000 (Array.replicate nc #[])
+      -- complete when every class with a rule has its terms 0..nmax (classes fed by negative shifts stop before `cap`)
+      let ok := (List.range nc).all (fun c => tab.len c > nmax || !(rules.any (·.cls == c)))
       let out := (List.range nc).map (fun c => s!"{c}:" ++ "|".intercalate (((tab.getD c #[]).toList.take (nmax+1)).map showT))
-      IO.println ((if ok then "ok " else "incomplete ") ++ " ".intercalate out)
-    | _ => IO.println "bad"
+      let msh := ";".intercalate ((rules.filter (fun r => r.kind != .ver)).map (fun r => s!"{r.cls}:{",".intercalate ((modelShifts r).map toString)}"))
+      IO.println (s!"check={if chk then 1 else 0} msh={msh} " ++ (if ok then "ok " else "incomplete ") ++ " ".intercalate out)
+    | _ => IO.println "bad-op"
     loop h
 def main : IO Unit := do loop (← IO.getStdin)
